@@ -15,7 +15,7 @@
 
     No proofs here (Proofs/KVSlice.v). *)
 From Coq Require Import String List NArith Bool.
-From Fabio Require Import Lib.Bytes Model.FlagSet.
+From Fabio Require Import Lib.Outcome Lib.Bytes Model.FlagSet.
 Import ListNotations.
 Local Open Scope N_scope.
 
@@ -350,3 +350,28 @@ Fixpoint parse_loop (fuel : nat) (s : list rune) (p : pst) : kvresult :=
 Definition pst0 : pst := {| p_maps := []; p_m := []; p_key := []; p_v := []; p_state := PFirstKey |}.
 
 Definition parse_kvslice (s : list rune) : kvresult := parse_loop (length s) s pst0.
+
+(* ---- config/load.go:299-311, the ui.addr block of load(), up to the call of parseListen:
+     if uiListenerValue != "" {
+         kvs, err := parseKVSlice(uiListenerValue)
+         if err != nil { return nil, err }                                   Err 1
+         if len(kvs) != 1 { return nil, "ui.addr must contain only one listener" }   Err 2
+         cfg.UI.Listen, err = parseListen(kvs[0], ...)                       kvs[0]: checked index
+     }
+   Ok None = the value is empty, nothing to do; Ok (Some m) = parseListen is called with m
+   (what parseListen does is outside the model). *)
+Definition ui_addr_step (v : list rune) : outcome (option smap) :=
+  match v with
+  | [] => Ok None
+  | _ =>
+      match parse_kvslice v with
+      | KErr _ => Err 1
+      | KPanic | KFuel => Panic
+      | KOk kvs =>
+          if negb (Nat.eqb (length kvs) 1) then Err 2
+          else match nth_error kvs 0 with
+               | Some m => Ok (Some m)
+               | None => Panic
+               end
+      end
+  end.
